@@ -757,3 +757,66 @@ func (a *Anchors) comparatorOf(res *Sym) *Sym {
 	}
 	return res
 }
+
+// The parser engine's fields by role, whatever they are called: fPT the parser's current savepoint (a struct embedding
+// the position, with one rune and one int of its own), fRN that savepoint's rune, fW its width, fDATA the parser's input
+// bytes. Resolved from the types when the program is loaded; the names of the reference tree are the fallback.
+var fPT, fRN, fW, fDATA = "pt", "rn", "w", "data"
+
+func resolveEngineFields(p *Program) {
+	fPT, fRN, fW, fDATA = "pt", "rn", "w", "data"
+	if p == nil || p.Grammar == nil || p.Grammar.Types == nil {
+		return
+	}
+	sc := p.Grammar.Types.Scope()
+	for _, nm := range sc.Names() {
+		tn, ok := sc.Lookup(nm).(*types.TypeName)
+		if !ok {
+			continue
+		}
+		st, ok := tn.Type().Underlying().(*types.Struct)
+		if !ok {
+			continue
+		}
+		pt, rn, w, data := "", "", "", ""
+		nbytes := 0
+		for i := 0; i < st.NumFields(); i++ {
+			f := st.Field(i)
+			if sl, isSl := f.Type().Underlying().(*types.Slice); isSl {
+				if b, isB := sl.Elem().Underlying().(*types.Basic); isB && b.Kind() == types.Uint8 {
+					data = f.Name()
+					nbytes++
+				}
+			}
+			sp, ok := f.Type().Underlying().(*types.Struct)
+			if !ok || f.Embedded() {
+				continue
+			}
+			emb, runes, ints := 0, []string{}, []string{}
+			for j := 0; j < sp.NumFields(); j++ {
+				g := sp.Field(j)
+				if g.Embedded() {
+					if _, isS := g.Type().Underlying().(*types.Struct); isS {
+						emb++
+					}
+					continue
+				}
+				if b, isB := g.Type().Underlying().(*types.Basic); isB {
+					switch b.Kind() {
+					case types.Int32:
+						runes = append(runes, g.Name())
+					case types.Int:
+						ints = append(ints, g.Name())
+					}
+				}
+			}
+			if emb == 1 && len(runes) == 1 && len(ints) == 1 && sp.NumFields() == 3 {
+				pt, rn, w = f.Name(), runes[0], ints[0]
+			}
+		}
+		if pt != "" && data != "" && nbytes == 1 {
+			fPT, fRN, fW, fDATA = pt, rn, w, data
+			return
+		}
+	}
+}
